@@ -104,6 +104,13 @@ func genCase(t *rapid.T) Case {
 			s := genOp(t, wrappers, 20)
 			s.Ctx = c.Main.Ctx
 			c.Steps = append(c.Steps, s)
+			if gen.Pick(t, 10, "settraps") == 1 {
+				// ErrDecimal.Ctx is an exported pointer: the caller may change the traps between
+				// operations, and Err reports "the context's trap error if present"
+				nt := arith.Case{Op: "settraps", Ctx: c.Main.Ctx, X: core.Dec{Coeff: "0"}, Y: core.Dec{Coeff: "0"}}
+				nt.Ctx.Traps = genTraps(t)
+				c.Steps = append(c.Steps, nt)
+			}
 		}
 		return c
 	}
@@ -266,8 +273,22 @@ func checkErrDecimal(c Case, st *core.Stats) error {
 	var mFlags apd.Condition
 	var mErr error
 	hist := ""
+	cur := c.Main.Ctx // the context as the caller has configured it so far
 	for i, s := range c.Steps {
 		hist += s.Op + " "
+		if s.Op == "settraps" {
+			ctx.Traps = apd.Condition(s.Ctx.Traps)
+			cur.Traps = s.Ctx.Traps
+			st.Class("traps-changed-mid-sequence")
+			if mErr == nil && mFlags&apd.Condition(s.Ctx.Traps) != 0 {
+				mErr = fmt.Errorf("accumulated %s now trapped", core.FlagStr(mFlags&apd.Condition(s.Ctx.Traps)))
+				st.NonTrivial("accumulated-flag-becomes-trapped")
+			}
+			if (ed.Err() == nil) != (mErr == nil) {
+				return fmt.Errorf("ErrDecimal step %d: after the traps were set to %s with accumulated Flags %s, Err() = %v (history: %s)", i, core.FlagStr(apd.Condition(s.Ctx.Traps)), core.FlagStr(ed.Flags), ed.Err(), hist)
+			}
+			continue
+		}
 		d := sentinel.Apd()
 		x, y := s.X.Apd(), s.Y.Apd()
 		if mErr != nil {
@@ -296,7 +317,7 @@ func checkErrDecimal(c Case, st *core.Stats) error {
 				wantInt, e = s.X.Apd().Int64()
 				want = arith.Out{D: sentinel.Apd(), Err: e}
 			} else {
-				want = arith.Call(s.Op, c.Main.Ctx.Apd(), sentinel.Apd(), s.X.Apd(), s.Y.Apd(), s.QExp, "")
+				want = arith.Call(s.Op, cur.Apd(), sentinel.Apd(), s.X.Apd(), s.Y.Apd(), s.QExp, "")
 				wantInt = int64(want.N)
 			}
 			extra = wrapper(&ed, s, d, x, y)
